@@ -5,6 +5,7 @@ package main
 
 import (
 	"fmt"
+	"go/token"
 	"go/types"
 
 	"golang.org/x/tools/go/ssa"
@@ -100,7 +101,8 @@ func ruleC02V1(c *Ctx, t *thrModel, rule string) {
 			p := strip(payload)
 			// classifier call on the same payload
 			var cls *ssa.Call
-			for _, in := range instrsOf(fn) {
+			// (the classification and the construction of the message may be separate steps of the handler)
+			for _, in := range instrsDeep(rootOfHelper(fn)) {
 				cl, ok := in.(*ssa.Call)
 				if !ok || cl.Call.IsInvoke() || staticCallee(&cl.Call) != nil || len(cl.Call.Args) != 1 {
 					continue
@@ -164,6 +166,25 @@ func ruleC02V1(c *Ctx, t *thrModel, rule string) {
 			}{{t.fMsgDigest, 0}, {t.fMsgSender, 1}, {t.fMsgRound, 2}} {
 				v := t.upParam(get(fi.f))
 				ok := false
+				if rawv, has := structLitFieldValue(a, fi.f); has {
+					// the decoder hands its outputs back as one struct: the field of that struct which
+					// alone has this field's type
+					if cl, fld := decoderStructField(rawv); cl != nil {
+						if cal := staticCallee(&cl.Call); cal != nil && cal.Name() == "Ack" && cal.Signature.Recv() != nil && isNamed(cal.Signature.Recv().Type(), PkgThreshold, "rbcEncoding") {
+							st, _ := fld.Type(), 0
+							n := 0
+							if rs, isS := cal.Signature.Results().At(0).Type().Underlying().(*types.Struct); isS {
+								for i := 0; i < rs.NumFields(); i++ {
+									if types.Identical(rs.Field(i).Type(), st) {
+										n++
+									}
+								}
+							}
+							sl := t.sl.Slice(cl.Call.Args[0])
+							ok = n == 1 && types.Identical(st, fi.f.Type()) && sliceHasFieldLoad(sl, t.fIncData)
+						}
+					}
+				}
 				if e, isE := v.(*ssa.Extract); isE && e.Index == fi.idx {
 					if cl, isC := e.Tuple.(*ssa.Call); isC {
 						if cal := staticCallee(&cl.Call); cal != nil && cal.Name() == "Ack" && cal.Signature.Recv() != nil && isNamed(cal.Signature.Recv().Type(), PkgThreshold, "rbcEncoding") {
@@ -190,15 +211,17 @@ func (t *thrModel) keyIsTopic(v ssa.Value) bool {
 // V2: only participant-filtered receivers are registered.
 func ruleC02V2(c *Ctx, t *thrModel, rule string) {
 	c.Rule(rule, "every value stored into rbcInProgress is rbcFilter.Receive with allowedList derived from the agreed member list", 1)
-	for _, mu := range mapUpdatesOfField(t.fns, t.fRBCTab) {
-		fname := FuncName(mu.Parent())
-		pos := t.m.Pos(mu.Pos())
-		recv, meth, ok := boundMethod(mu.Value)
+	for _, ts := range tableStoresOfField(t.fns, t.fRBCTab) {
+		fname := FuncName(ts.at.Parent())
+		pos := t.m.Pos(ts.at.Pos())
+		recv, meth, ok := boundMethod(ts.val)
 		var alloc *ssa.Alloc
+		var via *ssa.Call
+		resolve := func(v ssa.Value) ssa.Value { return v }
 		if ok && meth.Name() == "Receive" {
-			if a, isA := resultOf(recv).(*ssa.Alloc); isA {
+			if a, vc, rs := ctorLiteral(recv); a != nil {
 				if p, isP := a.Type().(*types.Pointer); isP && t.m.isNamedA(p.Elem(), PkgThreshold, "rbcFilter") {
-					alloc = a
+					alloc, via, resolve = a, vc, rs
 				}
 			}
 		}
@@ -210,6 +233,9 @@ func ruleC02V2(c *Ctx, t *thrModel, rule string) {
 		okList := false
 		if ok {
 			sl := t.sl.Slice(al)
+			if via != nil {
+				sl = t.sl.SliceIn(al, via) // the literal sits in a constructor shared by the sessions: as called here
+			}
 			for f := range t.conts {
 				if len(f.Params) > 0 && sl[f.Params[0]] {
 					okList = true
@@ -224,7 +250,7 @@ func ruleC02V2(c *Ctx, t *thrModel, rule string) {
 		okH := false
 		if ok {
 			if r2, m2, ok2 := boundMethod(h); ok2 && m2.Name() == "Receive" {
-				if cl, isC := strip(r2).(*ssa.Call); isC && callsFuncField(&cl.Call, t.fRBF) {
+				if cl, isC := strip(resolve(r2)).(*ssa.Call); isC && callsFuncField(&cl.Call, t.fRBF) {
 					okH = true
 				}
 			}
@@ -267,7 +293,7 @@ func ruleC02W1(c *Ctx, t *thrModel) {
 	const rule = "C02.W1"
 	c.Rule(rule, "whole-table stores into Scheme.rbcInProgress only in setup", 1)
 	for _, st := range storesToField(t.fns, t.fRBCTab) {
-		ok := st.Parent() == t.setup
+		ok := inlinedInto(st.Parent(), t.setup)
 		c.Check(ok, rule, FuncName(st.Parent()), "store to Scheme.rbcInProgress", t.m.Pos(st.Pos()), "in setup (run once via setupOnce)", "the handler table is replaced outside setup")
 	}
 }
@@ -287,7 +313,8 @@ func ruleC02V3(c *Ctx, t *thrModel) {
 		c.Analysed(FuncName(f))
 		all := true
 		n := 0
-		for _, in := range instrsOf(f) {
+		// (a method value of a configuration object standing for the literal: the method's body)
+		for _, in := range instrsOf(litBody(f)) {
 			r, ok := in.(*ssa.Return)
 			if !ok {
 				continue
@@ -451,13 +478,14 @@ func (t *thrModel) startsWithSetupOnce(root *ssa.Function) (bool, string) {
 // list (exact size by C07). Returns "" if so.
 func (t *thrModel) instanceSizeMatchesFilter() string {
 	n := 0
-	for _, mu := range mapUpdatesOfField(t.fns, t.fRBCTab) {
-		recv, _, ok := boundMethod(mu.Value)
+	for _, ts := range tableStoresOfField(t.fns, t.fRBCTab) {
+		mu := ts.at
+		recv, _, ok := boundMethod(ts.val)
 		if !ok {
 			return "a registered handler is not a bound method"
 		}
-		alloc, isA := resultOf(recv).(*ssa.Alloc)
-		if !isA {
+		alloc, _, resolve := ctorLiteral(recv)
+		if alloc == nil {
 			return "a registered handler's receiver is not a local filter literal"
 		}
 		h, ok := structLitFieldValue(alloc, t.fFilterH)
@@ -468,40 +496,63 @@ func (t *thrModel) instanceSizeMatchesFilter() string {
 		if !ok2 {
 			return "inner handler is not a bound method"
 		}
-		cl, isC := strip(r2).(*ssa.Call)
+		cl, isC := strip(resolve(r2)).(*ssa.Call)
 		if !isC || !callsFuncField(&cl.Call, t.fRBF) || len(cl.Call.Args) != 3 {
 			return "inner handler not obtained from Scheme.RBF"
 		}
-		size := strip(cl.Call.Args[2])
 		al, ok := structLitFieldValue(alloc, t.fFilterAllowed)
 		if !ok {
 			return "filter without allowed list"
 		}
-		matched := false
-		// (a) size = len(X), allowedList = f(X)
-		if x, isLen := lenOperand(size); isLen {
-			if alc, isCall := strip(al).(*ssa.Call); isCall && len(alc.Call.Args) == 1 && sameValue(alc.Call.Args[0], x) {
-				matched = true
+		// the construction may sit in a helper shared by the sessions (installRBC(rbcSession{…}, …)): then the
+		// size and the list are judged per call, with parameters and parameter-object fields resolved there
+		fn := mu.Parent()
+		views := []SiteCtx{{Site: mu}}
+		if helperCall(fn) == nil {
+			if cs := staticCallsTo(t.fns, fn); len(cs) >= 2 {
+				views = nil
+				for _, c := range cs {
+					views = append(views, SiteCtx{Calls: []ssa.CallInstruction{c}, Site: mu})
+				}
 			}
 		}
-		// (b) size is the expected-count argument of the Synchronize delivering the member list
-		if !matched {
-			for f, ci := range t.conts {
-				if len(f.Params) == 0 {
-					continue
-				}
-				sl := t.sl.Slice(al)
-				if !sl[f.Params[0]] {
-					continue
-				}
-				args := ci.Common().Args
-				if len(args) >= 4 && sameCellOrValue(args[3], size) {
+		for _, view := range views {
+			size := view.Resolve(cl.Call.Args[2])
+			matched := false
+			// (a) size = len(X), allowedList = f(X)
+			if x, isLen := lenOperand(size); isLen {
+				if alc, isCall := strip(al).(*ssa.Call); isCall && len(alc.Call.Args) == 1 && sameValue(view.Resolve(resolve(alc.Call.Args[0])), x) {
 					matched = true
 				}
 			}
-		}
-		if !matched {
-			return "the size given to the RBC factory at " + t.m.Pos(cl.Pos()) + " is not tied to the number of admitted participants"
+			// (b) size is the expected-count argument of the Synchronize delivering the member list
+			if !matched {
+				alv := al
+				if alc, isCall := strip(al).(*ssa.Call); isCall && len(alc.Call.Args) == 1 {
+					if rv := resolve(alc.Call.Args[0]); rv != alc.Call.Args[0] {
+						alv = rv
+					}
+					if len(view.Calls) > 0 {
+						alv = view.Resolve(resolve(alc.Call.Args[0]))
+					}
+				}
+				for f, ci := range t.conts {
+					if len(f.Params) == 0 {
+						continue
+					}
+					sl := t.sl.Slice(alv)
+					if !sl[f.Params[0]] {
+						continue
+					}
+					args := ci.Common().Args
+					if len(args) >= 4 && t.sameSessionValue(args[3], size) {
+						matched = true
+					}
+				}
+			}
+			if !matched {
+				return "the size given to the RBC factory at " + t.m.Pos(cl.Pos()) + " is not tied to the number of admitted participants"
+			}
 		}
 		n++
 	}
@@ -511,6 +562,19 @@ func (t *thrModel) instanceSizeMatchesFilter() string {
 	return ""
 }
 
+// sameSessionValue: the same value of one session — equal SSA values, loads of one captured variable,
+// or values with one root (a parameter handed down, a field of the session object).
+func (t *thrModel) sameSessionValue(a, b ssa.Value) bool {
+	if sameCellOrValue(a, b) {
+		return true
+	}
+	ra, rb := t.sl.rootOf(a), t.sl.rootOf(b)
+	if ra == rb {
+		return true
+	}
+	return strip(ra) == strip(rb)
+}
+
 // sameCellOrValue: equal SSA values, or loads of the same captured variable.
 func sameCellOrValue(a, b ssa.Value) bool {
 	a, b = strip(a), strip(b)
@@ -518,4 +582,154 @@ func sameCellOrValue(a, b ssa.Value) bool {
 		return true
 	}
 	return sameObject(a, b)
+}
+
+// decoderStructField: v reads field fld of the struct that is result #0 of a call — directly, through a
+// local variable assigned once with that result, or through a by-value parameter of a transparent
+// helper that is given it.  Returns the call and the field.
+func decoderStructField(v ssa.Value) (*ssa.Call, *types.Var) {
+	var base ssa.Value
+	var fld *types.Var
+	if p, f := paramObjectField(v); p != nil {
+		hc := helperCall(p.Parent())
+		idx := paramIndex(p)
+		if hc == nil || idx < 0 || idx >= len(hc.Call.Args) {
+			return nil, nil
+		}
+		base, fld = hc.Call.Args[idx], f
+	} else {
+		switch x := v.(type) {
+		case *ssa.Field:
+			st, ok := x.X.Type().Underlying().(*types.Struct)
+			if !ok {
+				return nil, nil
+			}
+			base, fld = x.X, st.Field(x.Field)
+		case *ssa.UnOp:
+			fa, ok := x.X.(*ssa.FieldAddr)
+			if !ok || x.Op != token.MUL {
+				return nil, nil
+			}
+			a, ok := fa.X.(*ssa.Alloc)
+			if !ok {
+				return nil, nil
+			}
+			base, fld = wholeStoreOf(a, x), fieldOfAddr(fa)
+		default:
+			return nil, nil
+		}
+	}
+	for i := 0; i < 6 && base != nil; i++ {
+		base = strip(base)
+		switch y := base.(type) {
+		case *ssa.UnOp:
+			a, ok := y.X.(*ssa.Alloc)
+			if !ok || y.Op != token.MUL {
+				return nil, nil
+			}
+			base = wholeStoreOf(a, y)
+		case *ssa.Extract:
+			cl, ok := y.Tuple.(*ssa.Call)
+			if !ok || y.Index != 0 {
+				return nil, nil
+			}
+			return cl, fld
+		case *ssa.Call:
+			if y.Call.Signature().Results().Len() == 1 {
+				return y, fld
+			}
+			return nil, nil
+		default:
+			return nil, nil
+		}
+	}
+	return nil, nil
+}
+
+// wholeStoreOf: the value assigned to the local struct variable a by its only assignment, which
+// dominates the read `at`; nil if the variable is written in any other way or its address escapes.
+func wholeStoreOf(a *ssa.Alloc, at ssa.Instruction) ssa.Value {
+	if a.Referrers() == nil {
+		return nil
+	}
+	var st *ssa.Store
+	for _, r := range *a.Referrers() {
+		switch y := r.(type) {
+		case *ssa.Store:
+			if y.Addr != ssa.Value(a) || st != nil {
+				return nil
+			}
+			st = y
+		case *ssa.UnOp:
+			if y.Op != token.MUL {
+				return nil
+			}
+		case *ssa.DebugRef:
+		case *ssa.FieldAddr:
+			if y.Referrers() != nil {
+				for _, q := range *y.Referrers() {
+					if u, ok := q.(*ssa.UnOp); !ok || u.Op != token.MUL {
+						if _, isD := q.(*ssa.DebugRef); !isD {
+							return nil
+						}
+					}
+				}
+			}
+		default:
+			return nil
+		}
+	}
+	if st == nil || !instrDominates(st, at) {
+		return nil
+	}
+	return st.Val
+}
+
+// ctorLiteral: the struct literal that v denotes — an allocation (possibly handed back by a
+// transparent helper) or the literal returned by a constructor helper SHARED by several callers that v
+// is a call of (`s.restrictSenders(rbc, participants)`).  In the second case `via` is that call and
+// resolve maps a parameter of the constructor, as used inside the literal, to the argument of the call.
+func ctorLiteral(v ssa.Value) (alloc *ssa.Alloc, via *ssa.Call, resolve func(ssa.Value) ssa.Value) {
+	resolve = func(x ssa.Value) ssa.Value { return x }
+	if a, ok := resultOf(v).(*ssa.Alloc); ok {
+		return a, nil, resolve
+	}
+	cl, ok := strip(v).(*ssa.Call)
+	if !ok {
+		return nil, nil, resolve
+	}
+	g := cl.Call.StaticCallee()
+	if g == nil || g.Blocks == nil || !ownPkgPath(pkgPathOf(g)) || len(g.Params) != len(cl.Call.Args) {
+		return nil, nil, resolve
+	}
+	var ret *ssa.Return
+	for _, in := range instrsOf(g) {
+		if r, ok := in.(*ssa.Return); ok {
+			if ret != nil {
+				return nil, nil, resolve
+			}
+			ret = r
+		}
+	}
+	if ret == nil || len(ret.Results) != 1 {
+		return nil, nil, resolve
+	}
+	noParamLook++
+	a, ok := strip(retResult(ret, 0)).(*ssa.Alloc)
+	noParamLook--
+	if !ok {
+		return nil, nil, resolve
+	}
+	resolve = func(x ssa.Value) ssa.Value {
+		noParamLook++
+		sx := strip(x)
+		noParamLook--
+		if p, ok := sx.(*ssa.Parameter); ok && p.Parent() == g {
+			if i := paramIndex(p); i >= 0 && i < len(cl.Call.Args) {
+				return cl.Call.Args[i]
+			}
+		}
+		return x
+	}
+	return a, cl, resolve
 }
